@@ -317,9 +317,23 @@ func checkC10(w *Worker) {
 		}
 	})
 	// ---- real files: a directory as file, lines at and beyond the line buffer
+	// kinds of directory: an ordinary one, one whose reported size is 0 (procfs, sysfs: "read everything the size says"
+	// reads nothing), a symbolic link to a directory
+	dirNames := []string{"adir"}
+	for _, d := range []string{"/proc/self", "/sys/kernel"} {
+		if st, err := os.Stat(d); err == nil && st.IsDir() && st.Size() == 0 {
+			dirNames = append(dirNames, d)
+			break
+		}
+	}
+	dirNames = append(dirNames, "alink")
 	w.Explore("directory-and-long-lines", ExploreOpts{ShardDepth: 2}, func(x *Exec) {
 		ci := x.Choose(len(c10Cmds)+1, "input:command") // last: stats
 		kind := x.Choose(6, "fault:kind")               // 0: directory as log, 1: directory as book, 2..5: long line lengths
+		adir := "adir"
+		if kind < 2 {
+			adir = dirNames[x.Choose(len(dirNames), "fault:kind-of-directory")]
+		}
 		var cmd c10Cmd
 		if ci == len(c10Cmds) {
 			cmd = c10Cmd{[]string{"stats"}, true, true}
@@ -328,6 +342,7 @@ func checkC10(w *Worker) {
 		}
 		cname := strings.Join(cmd.Args, " ")
 		os.MkdirAll(filepath.Join(theApp.dir, "adir"), 0o755)
+		os.Symlink("adir", filepath.Join(theApp.dir, "alink"))
 		fl := map[string]string{"food.yaml": files[1], "log.yaml": logs[1]}
 		args := []string{"--no-color"}
 		switch kind {
@@ -337,9 +352,9 @@ func checkC10(w *Worker) {
 				return
 			}
 			if cmd.Args[0] == "lint" {
-				cmd.Args = append(append([]string{}, cmd.Args[:len(cmd.Args)-1]...), "adir")
+				cmd.Args = append(append([]string{}, cmd.Args[:len(cmd.Args)-1]...), adir)
 			} else {
-				args = append(args, "-l", "adir")
+				args = append(args, "-l", adir)
 			}
 		case 1:
 			if !cmd.Db {
@@ -347,9 +362,9 @@ func checkC10(w *Worker) {
 				return
 			}
 			if cmd.Args[0] == "lint" {
-				cmd.Args = append(append([]string{}, cmd.Args[:len(cmd.Args)-1]...), "adir")
+				cmd.Args = append(append([]string{}, cmd.Args[:len(cmd.Args)-1]...), adir)
 			} else {
-				args = append(args, "-d", "adir")
+				args = append(args, "-d", adir)
 			}
 		default:
 			n := []int{65535, 65536, 65537, 70000}[kind-2]
